@@ -20,3 +20,14 @@ CFG = dict(
      assumptions=["testing/synctest virtual time is correct", "the SPIFFE object's default real clock is virtual inside the bubble"],
      timeout_quick=600, timeout_thorough=3000)
 CFG["rule"] += ' Added after independently written breaking changes: Issuer answers also include ones the client must refuse (empty chain, no / non-SPIFFE / two URI SANs, trust-anchor failure).'
+CFG["rule"] += (' Run\'s context: the readiness enumeration is crossed with the state of the context Run is called with - live / already cancelled / '
+                'deadline already passed at the call / cancelled while the initial fetch is in flight - and with an issuer that honours that '
+                'context or ignores it; a generated companion (ReadinessContexts) adds a context of the caller\'s own type and the error value of a '
+                'failing initial fetch. Oracle: at a settled point after the fetch was let through (and so once Run has returned, whatever it '
+                'returned) Ready and GetX509SVID have returned - the SVID iff the issuer was asked and answered with a certificate, an error '
+                'otherwise; Run itself has returned when its context is done. Error values: every scripted failure (issuer, trust-anchor source; '
+                'initial fetch and renewals) returns an error value drawn from a menu - errors.New, context.Canceled / DeadlineExceeded bare, '
+                'wrapped, joined, from the requester\'s own per-request context (timeout, cancel, cause), *url.Error, *net.OpError, '
+                'os.ErrDeadlineExceeded, io.EOF / ErrUnexpectedEOF, own error types with Is / Unwrap() []error / Timeout methods; the retry-after-10-s, '
+                'half-life and served-SVID oracles apply unchanged, and while the initial fetch succeeded and Run\'s context is live Run has not '
+                'returned. Classes run-context.*, initial-failure.*, renewal-failure-error.* count what was generated and reached.')
